@@ -70,8 +70,15 @@ package tdpos
 //@   pure
 
 // A block is accepted only from the validator entitled at the block's own timestamp.
+// C14: the block's certificate is judged against the proposers of the PARENT block's term
+// (its height, time and storage), and that very certificate and set are what the safety rules check.
 //@ func tdposConsensus.CheckMinerMatch
 //@   property C16
+//@   local justify *chainedBft.QuorumCert
+//@   local prestorage []byte
+//@   local validators []string
+//@   at tdposSchedule.CalOldProposers#2 assert [C14] proposers_of_the_parents_term: $2 == prestorage
+//@   at saftyRulesInterface.CheckProposal assert [C14] the_blocks_own_certificate_and_that_set_are_checked: ifacePtr($1) == justify && $2 == validators
 //@   requires cfg: tdCfgOK(tp.election)
 //@   requires ts_nonneg: block.GetTimestamp() >= 0
 //@   ensures entitled_producer: result0 ==> (exists t int, p int, b int :: tdposSlot(tp.election, block.GetTimestamp(), t, p, b) && 0 <= b && b < tp.election.blockNum && p < tp.election.proposerNum
